@@ -99,9 +99,9 @@ func SnapPre(w *World, full bool) *Pre {
 		p.Len = append(p.Len, l.Len())
 		p.Clock = append(p.Clock, l.Clock.GetTime())
 		p.Strict = append(p.Strict, w.Strict(i))
+		es := l.GetEntries().Slice()
+		p.Entries = append(p.Entries, es)
 		if full {
-			es := l.GetEntries().Slice()
-			p.Entries = append(p.Entries, es)
 			m := map[string]string{}
 			for _, e := range es {
 				m[e.GetHash().String()] = DumpEntry(e)
